@@ -162,7 +162,7 @@ Proof.
   cbv beta in C. pose proof (forall_zrange _ _ C t ltac:(simpl; lia)) as D.
   unfold tc_check2 in D. destruct (tc_set_type tc t) as [x| | |]; try discriminate.
   exists x. repeat (apply andb_true_iff in D as [D ?]).
-  repeat split; try lia. apply eqb_prop; auto.
+  repeat split; try lia. all: try (apply eqb_prop; auto).
 Qed.
 
 Lemma tc_set_type_panics tc t : 128 <= t < 256 -> tc_set_type tc t = Panic 2.
@@ -233,6 +233,13 @@ Lemma wf_hdr_intro a s r v t c :
 Proof.
   intros. unfold wf_hdr; cbn [h_addr h_size h_rsvd h_ver h_tc h_cksum].
   rewrite H0. repeat (apply andb_true_iff; split); lia.
+Qed.
+
+Lemma wf_hdr_enc a s r v t c :
+  0 <= a < 2 ^ 64 -> 0 <= r < 256 -> 0 <= v < 2 ^ 16 -> 0 <= t < 256 -> 0 <= c < 256 ->
+  wf_hdr (mkHdr a (le_enc 3 s) r v t c) = true.
+Proof.
+  intros. apply wf_hdr_intro; auto; try apply le_enc_ok; try apply (zlen_le_enc 3).
 Qed.
 
 Lemma zlen_enc_hdr h : wf_hdr h = true -> zlen (enc_hdr h) = hdr_len.
@@ -316,3 +323,844 @@ Proof.
   glue b 14 1 1. glue b 12 2 2. glue b 11 1 4. glue b 8 3 5. glue b 0 8 8.
   reflexivity.
 Qed.
+
+(* ================= writes into a buffer ================= *)
+
+Lemma nth_error_sub b o l i : 0 <= o ->
+  nth_error (sub o l b) i = if Z.of_nat i <? l then nth_error b (Z.to_nat o + i) else None.
+Proof.
+  intros Ho. unfold sub, zfirstn, zskipn. destruct (Z.of_nat i <? l) eqn:E.
+  - rewrite nth_error_firstn_lt' by lia. apply nth_error_skipn'.
+  - apply nth_error_None. rewrite firstn_length. lia.
+Qed.
+
+Lemma sub_ext b1 b2 o l : 0 <= o ->
+  (forall i, o <= Z.of_nat i < o + l -> nth_error b1 i = nth_error b2 i) ->
+  sub o l b1 = sub o l b2.
+Proof.
+  intros Ho H. apply nth_error_ext. intros i. rewrite !nth_error_sub by auto.
+  destruct (Z.of_nat i <? l) eqn:E; auto. apply H. lia.
+Qed.
+
+Lemma splice_nil pos st : splice pos [] st = st.
+Proof.
+  unfold splice. rewrite zlen_nil, Z.add_0_r. cbn [app]. apply zfirstn_zskipn.
+Qed.
+
+Lemma splice_app o a b st : 0 <= o -> o + zlen a + zlen b <= zlen st ->
+  splice (o + zlen a) b (splice o a st) = splice o (a ++ b) st.
+Proof.
+  intros Ho Hb. pose proof (zlen_nonneg a). pose proof (zlen_nonneg b).
+  unfold splice at 2. set (X := zfirstn o st). set (R := zskipn (o + zlen a) st).
+  assert (LX : zlen X = o) by (apply zlen_zfirstn; lia).
+  assert (LXa : zlen (X ++ a) = o + zlen a) by (rewrite zlen_app; lia).
+  unfold splice. rewrite (app_assoc X a R).
+  rewrite <- LXa at 1. rewrite zfirstn_app_exact.
+  replace (o + zlen a + zlen b) with (zlen b + zlen (X ++ a)) by lia.
+  rewrite <- zskipn_zskipn by lia. rewrite zskipn_app_exact.
+  unfold R. rewrite zskipn_zskipn by lia. rewrite zlen_app.
+  fold X. rewrite <- !app_assoc. do 4 f_equal. lia.
+Qed.
+
+Definition write := (Z * bytes)%type.
+Definition wrange (w : write) : Z * Z := (fst w, zlen (snd w)).
+
+Fixpoint apply_writes (img : bytes) (ws : list write) : bytes :=
+  match ws with
+  | [] => img
+  | w :: r => apply_writes (splice (fst w) (snd w) img) r
+  end.
+
+Lemma disjoint_untouched a rs k :
+  forallb (disjoint a) rs = true -> in_range k a = true -> untouched k rs = true.
+Proof.
+  intros D I. unfold untouched. apply forallb_forall. intros r Hr.
+  rewrite forallb_forall in D. specialize (D r Hr).
+  unfold disjoint, in_range in *. lia.
+Qed.
+
+(* in-bounds, pairwise disjoint writes: each written range holds its data,
+   everything else is unchanged, the length is preserved *)
+Lemma apply_writes_spec ws : forall img,
+  forallb (in_image (zlen img)) (map wrange ws) = true ->
+  pairwise_disjoint (map wrange ws) = true ->
+  zlen (apply_writes img ws) = zlen img /\
+  (forall k, untouched (Z.of_nat k) (map wrange ws) = true ->
+     nth_error (apply_writes img ws) k = nth_error img k) /\
+  (forall w, In w ws -> sub (fst w) (zlen (snd w)) (apply_writes img ws) = snd w).
+Proof.
+  induction ws as [|w ws IH]; intros img B D.
+  - cbn [apply_writes]. repeat split; auto. intros w [].
+  - cbn [map forallb pairwise_disjoint] in B, D.
+    apply andb_true_iff in B as [Bw B]. apply andb_true_iff in D as [Dw D].
+    unfold in_image, wrange in Bw; cbn [fst snd] in Bw.
+    assert (Bw1 : 0 <= fst w) by lia. assert (Bw2 : fst w + zlen (snd w) <= zlen img) by lia.
+    cbn [apply_writes]. set (img1 := splice (fst w) (snd w) img).
+    assert (L1 : zlen img1 = zlen img) by (apply zlen_splice; auto).
+    rewrite <- L1 in B. destruct (IH img1 B D) as (IL & IO & IS).
+    split; [lia|]. split.
+    + intros k U. cbn [map untouched forallb] in U. unfold untouched in U. cbn [forallb] in U.
+      apply andb_true_iff in U as [Uw U]. rewrite IO by exact U.
+      unfold in_range, wrange in Uw; cbn [fst snd] in Uw.
+      destruct (Z_lt_dec (Z.of_nat k) (fst w)).
+      * apply nth_error_splice_lo; auto.
+      * apply nth_error_splice_hi; auto. lia.
+    + intros w' [<-|I]; [|apply IS; auto].
+      rewrite (sub_ext _ img1) by
+        (auto; intros i Hi; apply IO; apply (disjoint_untouched (wrange w)); auto;
+         unfold in_range, wrange; cbn [fst snd]; lia).
+      apply sub_splice; auto.
+Qed.
+
+Lemma rws_write_full st pos d : 0 <= pos -> 0 < zlen d -> pos + zlen d <= zlen st ->
+  rws_write st pos d = (splice pos d st, pos + zlen d, true).
+Proof.
+  intros H1 H2 H3. unfold rws_write. replace (zlen st <=? pos) with false by lia.
+  rewrite Z.min_r by lia. rewrite zfirstn_all by lia.
+  replace (zlen d <=? zlen d) with true by lia. reflexivity.
+Qed.
+
+Lemma rws_seek_ok st p : 0 <= p <= zlen st -> rws_seek st p = Some p.
+Proof.
+  intros H. unfold rws_seek. replace ((p <? 0) || (zlen st <? p)) with false by lia. reflexivity.
+Qed.
+
+Definition enc_table (hs : list hdr) : bytes := concat (map enc_hdr hs).
+
+Lemma zlen_enc_table hs : forallb wf_hdr hs = true -> zlen (enc_table hs) = hdr_len * zlen hs.
+Proof.
+  induction hs as [|h hs IH]; intros W; [reflexivity|].
+  cbn [forallb] in W. apply andb_true_iff in W as [Wh W].
+  unfold enc_table in *. cbn [map concat]. rewrite zlen_app, zlen_cons, IH by auto.
+  rewrite zlen_enc_hdr by auto. lia.
+Qed.
+
+Lemma write_headers_full hs : forall st pos, forallb wf_hdr hs = true -> 0 <= pos ->
+  pos + hdr_len * zlen hs <= zlen st ->
+  write_headers st pos hs = (splice pos (enc_table hs) st, pos + hdr_len * zlen hs, true).
+Proof.
+  induction hs as [|h hs IH]; intros st pos W Hp Hb.
+  - cbn [write_headers]. unfold enc_table; cbn [map concat]. rewrite splice_nil.
+    change (zlen (@nil hdr)) with 0. f_equal. f_equal. lia.
+  - cbn [forallb] in W. apply andb_true_iff in W as [Wh W].
+    pose proof (zlen_enc_hdr h Wh) as Lh. pose proof (zlen_enc_table hs W) as Lt.
+    rewrite zlen_cons in Hb. pose proof (zlen_nonneg hs).
+    assert (HL : hdr_len = 16) by reflexivity.
+    cbn [write_headers]. rewrite rws_write_full by lia. cbv beta iota.
+    rewrite IH by (auto; try rewrite zlen_splice; lia).
+    unfold enc_table in *. cbn [map concat]. rewrite <- Lh at 1.
+    rewrite splice_app by lia. rewrite zlen_cons. f_equal. f_equal. lia.
+Qed.
+
+Definition data_writes (n : Z) (es : list entry) : list write :=
+  map (fun e => (data_off n e, e_data e)) (filter has_data es).
+
+Lemma wrange_data_writes n es : map wrange (data_writes n es) = data_ranges n es.
+Proof. unfold data_writes, data_ranges. rewrite map_map. reflexivity. Qed.
+
+Lemma inject_datas_full es : forall st, zlen st < 2 ^ 63 ->
+  forallb (in_image (zlen st)) (data_ranges (zlen st) es) = true ->
+  inject_datas st es = (apply_writes st (data_writes (zlen st) es), 0).
+Proof.
+  induction es as [|e es IH]; intros st Hn B; [reflexivity|].
+  cbn [inject_datas]. unfold inject_data, data_ranges, data_writes in *. cbn [filter] in *.
+  unfold has_data at 1 in B. unfold has_data at 1.
+  destruct (zlen (e_data e) =? 0) eqn:E; cbn [negb] in *.
+  - cbv beta iota. replace (0 =? 0) with true by reflexivity. apply IH; auto.
+  - cbn [map forallb] in B. apply andb_true_iff in B as [Be B].
+    unfold in_image, data_off in Be; cbn [fst snd] in Be.
+    pose proof (zlen_nonneg (e_data e)).
+    set (o := offset_of_phys (h_addr (e_hdr e)) (zlen st)) in *.
+    rewrite s64_small by lia. rewrite rws_seek_ok by lia.
+    rewrite rws_write_full by lia. cbv beta iota.
+    replace (0 =? 0) with true by reflexivity.
+    assert (L1 : zlen (splice o (e_data e) st) = zlen st) by (apply zlen_splice; lia).
+    rewrite IH by (rewrite L1; auto). rewrite L1. cbn [map apply_writes fst snd].
+    unfold data_off. fold o. reflexivity.
+Qed.
+
+Definition inject_writes (img : bytes) (off : Z) (es : list entry) : list write :=
+  (zlen img - fit_pointer_offset, le_enc 8 (phys_of_offset off (zlen img))) ::
+  (off, enc_table (map e_hdr es)) :: data_writes (zlen img) es.
+
+Lemma wrange_inject_writes img off es : forallb wf_hdr (map e_hdr es) = true ->
+  map wrange (inject_writes img off es) = ranges (zlen img) off es.
+Proof.
+  intros W. unfold inject_writes, ranges. cbn [map]. unfold wrange at 1 2. cbn [fst snd].
+  rewrite le8, zlen_enc_table by auto. rewrite wrange_data_writes.
+  unfold zlen at 2. rewrite map_length. reflexivity.
+Qed.
+
+Lemma layout_ok_spec img off es : layout_ok img off es = true ->
+  fit_pointer_offset <= zlen img < 2 ^ 63 /\
+  forallb (in_image (zlen img)) (ranges (zlen img) off es) = true /\
+  pairwise_disjoint (ranges (zlen img) off es) = true.
+Proof.
+  unfold layout_ok. intros H. repeat (apply andb_true_iff in H as [H ?]).
+  repeat split; auto; lia.
+Qed.
+
+(* under the layout hypothesis an injection is exactly the sequence of writes *)
+Lemma inject_full img off es : layout_ok img off es = true ->
+  forallb wf_hdr (map e_hdr es) = true ->
+  inject img es off = (apply_writes img (inject_writes img off es), 0).
+Proof.
+  intros LO W. apply layout_ok_spec in LO as ((N1 & N2) & B & _).
+  unfold ranges in B. cbn [forallb] in B.
+  apply andb_true_iff in B as [Bp B]. apply andb_true_iff in B as [Bt Bd].
+  unfold in_image in Bp, Bt; cbn [fst snd] in Bp, Bt.
+  assert (FP : fit_pointer_offset = 64) by reflexivity.
+  unfold inject. rewrite rws_seek_ok by lia.
+  rewrite rws_write_full by (rewrite ?le8; lia). cbv beta iota. cbn [negb].
+  set (st1 := splice (zlen img - fit_pointer_offset) (le_enc 8 (phys_of_offset off (zlen img))) img).
+  assert (L1 : zlen st1 = zlen img) by (apply zlen_splice; rewrite ?le8; lia).
+  pose proof (zlen_nonneg es).
+  assert (HL : hdr_len = 16) by reflexivity.
+  rewrite s64_small by lia. rewrite rws_seek_ok by lia.
+  assert (Lm : zlen (map e_hdr es) = zlen es) by (unfold zlen; rewrite map_length; reflexivity).
+  rewrite write_headers_full by (auto; rewrite ?Lm; lia). cbv beta iota. cbn [negb].
+  set (st2 := splice off (enc_table (map e_hdr es)) st1).
+  assert (L2 : zlen st2 = zlen img).
+  { unfold st2. rewrite zlen_splice; auto; try lia. rewrite zlen_enc_table, Lm by auto. lia. }
+  rewrite inject_datas_full by (rewrite L2; auto). rewrite L2.
+  unfold inject_writes. cbn [apply_writes fst snd]. reflexivity.
+Qed.
+
+(* ================= reading back ================= *)
+
+Lemma zfirstn_sub o l1 l2 (b : bytes) : 0 <= l1 <= l2 -> zfirstn l1 (sub o l2 b) = sub o l1 b.
+Proof.
+  intros H. unfold sub, zfirstn. rewrite firstn_firstn. f_equal. lia.
+Qed.
+
+Lemma zskipn_split o l (b : bytes) : 0 <= o -> 0 <= l ->
+  zskipn o b = sub o l b ++ zskipn (o + l) b.
+Proof.
+  intros Ho Hl. unfold sub. replace (o + l) with (l + o) by lia.
+  rewrite <- zskipn_zskipn by lia. symmetry. apply zfirstn_zskipn.
+Qed.
+
+Lemma sub_sub o l k w (b : bytes) : 0 <= o -> 0 <= k -> k + w <= l ->
+  sub k w (sub o l b) = sub (o + k) w b.
+Proof.
+  intros Ho Hk Hw. apply nth_error_ext. intros i.
+  rewrite !nth_error_sub by lia. destruct (Z.of_nat i <? w) eqn:E; auto.
+  replace (Z.of_nat (Z.to_nat k + i) <? l) with true by lia. f_equal. lia.
+Qed.
+
+Lemma slice_or_copy_ok img o n : 0 <= o -> 0 <= n -> o + n <= zlen img -> zlen img < 2 ^ 63 ->
+  slice_or_copy img o (w64 (o + n)) = Ok (sub o n img).
+Proof.
+  intros Ho Hn Hb Hl. unfold slice_or_copy. rewrite (w64_small (o + n)) by lia.
+  rewrite !s64_small by lia.
+  replace (bytes_range (zlen img) o (o + n)) with true by (unfold bytes_range; lia).
+  rewrite slice_ok by lia. cbn [of_opt]. do 2 f_equal. lia.
+Qed.
+
+Lemma magic_enc : le_enc 8 magic_addr = fit_headers_magic.
+Proof. reflexivity. Qed.
+
+Lemma magic_addr_range : 0 <= magic_addr < 2 ^ 64.
+Proof.
+  pose proof (le_dec_bound fit_headers_magic eq_refl) as B.
+  change (zlen fit_headers_magic) with 8 in B. change (256 ^ 8) with (2 ^ 64) in B. exact B.
+Qed.
+
+(* what an image must hold for the entries [es] to be read back from a table at [off] *)
+Record holds (img : bytes) (off : Z) (es : list entry) : Prop := {
+  hl_len : fit_pointer_offset <= zlen img < 2 ^ 63;
+  hl_ptr : sub (zlen img - fit_pointer_offset) 8 img = le_enc 8 (phys_of_offset off (zlen img));
+  hl_off : 0 <= off /\ off + hdr_len * zlen es <= zlen img;
+  hl_tab : sub off (hdr_len * zlen es) img = enc_table (map e_hdr es);
+  hl_dat : forall e, In e es -> has_data e = true ->
+             0 <= data_off (zlen img) e /\ data_off (zlen img) e + zlen (e_data e) <= zlen img /\
+             sub (data_off (zlen img) e) (zlen (e_data e)) img = e_data e
+}.
+
+Lemma first_ok_spec es : first_ok es = true ->
+  exists e0 r, es = e0 :: r /\ e_kind e0 = fit_type_fit_header /\
+               h_addr (e_hdr e0) = magic_addr /\ hsz (e_hdr e0) = zlen es.
+Proof.
+  destruct es as [|e0 r]; [discriminate|]. unfold first_ok. intros H.
+  repeat (apply andb_true_iff in H as [H ?]). exists e0, r. repeat split; auto; lia.
+Qed.
+
+Lemma entry_ok_spec e : entry_ok e = true ->
+  wf_hdr (e_hdr e) = true /\ bytes_ok (e_data e) = true /\
+  e_kind e = kind_of_type (htype (e_hdr e)) /\ data_rule e = true /\ e_err e = 0.
+Proof.
+  unfold entry_ok. intros H.
+  apply andb_true_iff in H as [H H5]. apply andb_true_iff in H as [H H4].
+  apply andb_true_iff in H as [H H3]. apply andb_true_iff in H as [H1 H2].
+  apply Z.eqb_eq in H3, H5. repeat split; auto.
+Qed.
+
+Lemma entries_wf es : forallb entry_ok es = true -> forallb wf_hdr (map e_hdr es) = true.
+Proof.
+  induction es as [|e es IH]; intros H; [reflexivity|].
+  cbn [forallb map] in *. apply andb_true_iff in H as [He H].
+  apply entry_ok_spec in He as (W & _). rewrite W, IH; auto.
+Qed.
+
+Lemma table_range_holds img off es : holds img off es ->
+  forallb wf_hdr (map e_hdr es) = true -> first_ok es = true ->
+  table_range img = Ok (off, off + hdr_len * zlen es).
+Proof.
+  intros [(N1 & N2) P (O1 & O2) T _] W F.
+  apply first_ok_spec in F as (e0 & r & -> & K0 & A0 & S0).
+  cbn [map forallb] in W. apply andb_true_iff in W as [W0 W].
+  pose proof (hsz_range _ W0) as HS. rewrite S0 in HS.
+  assert (FP : fit_pointer_offset = 64) by reflexivity.
+  assert (FS : fit_pointer_size = 16) by reflexivity.
+  assert (HL : hdr_len = 16) by reflexivity.
+  set (n := zlen img) in *. set (es := e0 :: r) in *.
+  assert (Ln : 1 <= zlen es) by (unfold es; rewrite zlen_cons; pose proof (zlen_nonneg r); lia).
+  unfold table_range. fold n.
+  replace (bytes_range n (n - fit_pointer_offset) (n - fit_pointer_offset + fit_pointer_size))
+    with true by (unfold bytes_range; lia).
+  cbn [negb]. rewrite (w64_small (n - fit_pointer_offset)) by lia.
+  replace (n - fit_pointer_offset + fit_pointer_size) with (n - fit_pointer_offset + 16) by lia.
+  rewrite slice_or_copy_ok by (fold n; lia). cbn [bind].
+  rewrite zfirstn_sub by lia. fold n in P. rewrite P.
+  rewrite le_dec_enc by (pose proof (w64_range (w64 (fit_base_phys_addr - n) + off));
+                         unfold phys_of_offset; simpl Z.of_nat; change (256 ^ 8) with (2 ^ 64); lia).
+  rewrite tail_start_u64 by lia.
+  rewrite (w64_small (off + hdr_len)) by lia. rewrite !s64_small by lia.
+  replace (bytes_range n off (off + hdr_len)) with true by (unfold bytes_range; lia).
+  cbn [negb]. rewrite rws_seek_ok by (fold n; lia).
+  rewrite (zskipn_split off (hdr_len * zlen es)) by lia. rewrite T.
+  unfold es at 1. cbn [map]. unfold enc_table. cbn [map concat]. rewrite <- app_assoc.
+  rewrite dec_enc_hdr by auto.
+  rewrite A0, magic_enc.
+  replace (bytes_eqb fit_headers_magic fit_headers_magic) with true
+    by (symmetry; apply bytes_eqb_eq; reflexivity).
+  cbn [negb]. rewrite S0. rewrite w32_small by lia.
+  rewrite (w64_small (off + zlen es * 16)) by lia. rewrite s64_small by lia.
+  replace (bytes_range n off (off + zlen es * 16)) with true by (unfold bytes_range; lia).
+  cbn [negb]. do 2 f_equal. lia.
+Qed.
+
+Lemma parse_table_f_enc hs : forall fuel, forallb wf_hdr hs = true -> (length hs < fuel)%nat ->
+  parse_table_f fuel (enc_table hs) = Ok hs.
+Proof.
+  induction hs as [|h hs IH]; intros fuel W F.
+  - destruct fuel; [lia|]. reflexivity.
+  - destruct fuel as [|fuel]; [lia|]. cbn [length] in F.
+    cbn [forallb] in W. apply andb_true_iff in W as [Wh W].
+    pose proof (zlen_enc_hdr h Wh) as Lh. assert (HL : hdr_len = 16) by reflexivity.
+    unfold enc_table in *. cbn [map concat parse_table_f].
+    rewrite zlen_app, Lh. pose proof (zlen_nonneg (concat (map enc_hdr hs))).
+    replace (hdr_len + zlen (concat (map enc_hdr hs)) =? 0) with false by lia.
+    rewrite dec_enc_hdr by auto. rewrite <- Lh at 1. rewrite zskipn_app_exact.
+    rewrite IH by (auto; lia). reflexivity.
+Qed.
+
+Lemma parse_table_enc hs : forallb wf_hdr hs = true -> parse_table (enc_table hs) = Ok hs.
+Proof.
+  intros W. unfold parse_table. apply parse_table_f_enc; auto.
+  pose proof (zlen_enc_table hs W) as L. unfold zlen in L.
+  assert (HL : hdr_len = 16) by reflexivity. lia.
+Qed.
+
+Lemma get_table_holds img off es : holds img off es ->
+  forallb wf_hdr (map e_hdr es) = true -> first_ok es = true ->
+  get_table img = Ok (map e_hdr es).
+Proof.
+  intros H W F. unfold get_table. rewrite (table_range_holds img off es) by auto.
+  destruct H as [(N1 & N2) _ (O1 & O2) T _]. cbn [bind fst snd].
+  pose proof (zlen_nonneg es). assert (HL : hdr_len = 16) by reflexivity.
+  rewrite <- (w64_small (off + hdr_len * zlen es)) by lia.
+  rewrite slice_or_copy_ok by lia. cbn [bind]. rewrite T. apply parse_table_enc; auto.
+Qed.
+
+(* ---- one entry ---- *)
+
+Lemma zlen_zero_nil {A} (l : list A) : zlen l = 0 -> l = [].
+Proof. destruct l; [reflexivity|]. rewrite zlen_cons. pose proof (zlen_nonneg l). lia. Qed.
+
+Lemma new_entry_sized e img sz :
+  kind_of_type (htype (e_hdr e)) = e_kind e ->
+  data_size (e_kind e) (e_hdr e) img = Ok sz -> sz = zlen (e_data e) -> e_err e = 0 ->
+  zlen img < 2 ^ 63 ->
+  (has_data e = true ->
+     0 <= data_off (zlen img) e /\ data_off (zlen img) e + zlen (e_data e) <= zlen img /\
+     sub (data_off (zlen img) e) (zlen (e_data e)) img = e_data e) ->
+  new_entry (e_hdr e) img = Ok e.
+Proof.
+  intros K DS -> ER N HD. unfold new_entry. rewrite K, DS.
+  destruct e as [k h d er]; cbn [e_kind e_hdr e_data e_err] in *. subst er.
+  unfold has_data, data_off in HD; cbn [e_data e_hdr] in HD.
+  destruct (zlen d =? 0) eqn:E.
+  - apply Z.eqb_eq in E. apply zlen_zero_nil in E. subst d. reflexivity.
+  - cbn [negb] in HD. destruct (HD eq_refl) as (B1 & B2 & S).
+    pose proof (zlen_nonneg d). rewrite slice_or_copy_ok by lia. rewrite S. reflexivity.
+Qed.
+
+Lemma new_entry_unsupported e img c :
+  kind_of_type (htype (e_hdr e)) = e_kind e ->
+  data_size (e_kind e) (e_hdr e) img = Err c -> e_data e = [] ->
+  new_entry (e_hdr e) img = Ok (mkEntry (e_kind e) (e_hdr e) [] c).
+Proof. intros K DS D. unfold new_entry. rewrite K, DS. reflexivity. Qed.
+
+Lemma sacm_size_holds img o d : 0 <= o -> o + zlen d <= zlen img -> zlen img < 2 ^ 63 ->
+  sub o (zlen d) img = d -> fit_sacm_size_offset + 4 <= zlen d ->
+  sacm_size img o = Ok (w32 (rd fit_sacm_size_offset 4 d * 4)).
+Proof.
+  intros Ho Hb Hn S L. assert (SO : fit_sacm_size_offset = 24) by reflexivity.
+  unfold sacm_size, add_s64. rewrite (s64_small o) by lia.
+  rewrite (w64_small (o + fit_sacm_size_offset)) by lia. rewrite s64_small by lia.
+  rewrite rws_seek_ok by lia.
+  replace (zlen img <? o + fit_sacm_size_offset + 4) with false by lia.
+  do 3 f_equal. unfold rd. f_equal.
+  rewrite <- (sub_sub o (zlen d) fit_sacm_size_offset (Z.of_nat 4) img) by (simpl Z.of_nat; lia).
+  rewrite S. reflexivity.
+Qed.
+
+Lemma new_entry_holds e img : entry_ok e = true -> zlen img < 2 ^ 63 ->
+  (has_data e = true ->
+     0 <= data_off (zlen img) e /\ data_off (zlen img) e + zlen (e_data e) <= zlen img /\
+     sub (data_off (zlen img) e) (zlen (e_data e)) img = e_data e) ->
+  new_entry (e_hdr e) img = Ok (as_read e).
+Proof.
+  intros EO N HD. apply entry_ok_spec in EO as (W & BO & K & DR & ER). symmetry in K.
+  pose proof (hsz_range _ W) as HS.
+  unfold data_rule in DR. unfold as_read.
+  destruct (no_data_kind (e_kind e)) eqn:ND.
+  - (* no data *)
+    apply Z.eqb_eq in DR. pose proof (zlen_zero_nil _ DR) as DN.
+    destruct ((e_kind e =? fit_type_diagnostic_acm) || (e_kind e =? fit_type_tpm_policy)) eqn:U.
+    + rewrite (new_entry_unsupported e img E_SIZE); auto.
+      * rewrite DN. reflexivity.
+      * unfold data_size. unfold no_data_kind in ND.
+        replace ((e_kind e =? fit_type_fit_header) || (e_kind e =? fit_type_txt_policy)) with false
+          by (unfold fit_type_fit_header, fit_type_txt_policy, fit_type_diagnostic_acm,
+                     fit_type_tpm_policy in *; lia).
+        rewrite U. reflexivity.
+    + apply (new_entry_sized e img 0); auto.
+      unfold data_size. unfold no_data_kind in ND.
+      replace ((e_kind e =? fit_type_fit_header) || (e_kind e =? fit_type_txt_policy)) with true by lia.
+      reflexivity.
+  - unfold no_data_kind in ND.
+    replace ((e_kind e =? fit_type_diagnostic_acm) || (e_kind e =? fit_type_tpm_policy)) with false by lia.
+    assert (DS : data_size (e_kind e) (e_hdr e) img =
+              if bytes_kind (e_kind e) then Ok (hsz (e_hdr e))
+              else if e_kind e =? fit_type_sacm
+                   then sacm_size img (offset_of_phys (h_addr (e_hdr e)) (zlen img))
+                   else Ok (hsz (e_hdr e) * 16)).
+    { unfold data_size, bytes_kind.
+      replace ((e_kind e =? fit_type_fit_header) || (e_kind e =? fit_type_txt_policy)) with false by lia.
+      replace ((e_kind e =? fit_type_diagnostic_acm) || (e_kind e =? fit_type_tpm_policy)) with false by lia.
+      reflexivity. }
+    destruct (bytes_kind (e_kind e)) eqn:BK.
+    + apply Z.eqb_eq in DR. apply (new_entry_sized e img (hsz (e_hdr e))); auto.
+    + destruct (e_kind e =? fit_type_sacm) eqn:SK.
+      * apply andb_true_iff in DR as [D1 D2]. apply Z.leb_le in D1. apply Z.eqb_eq in D2.
+        assert (SO : fit_sacm_size_offset = 24) by reflexivity.
+        assert (HDt : has_data e = true) by (unfold has_data; lia).
+        destruct (HD HDt) as (B1 & B2 & S).
+        apply (new_entry_sized e img (zlen (e_data e))); auto.
+        rewrite DS. unfold data_off in *. rewrite (sacm_size_holds img _ (e_data e)); auto.
+        rewrite <- D2. reflexivity.
+      * apply Z.eqb_eq in DR. apply (new_entry_sized e img (hsz (e_hdr e) * 16)); auto.
+Qed.
+
+Lemma entries_from_holds img : zlen img < 2 ^ 63 -> forall es,
+  (forall e, In e es -> entry_ok e = true /\
+     (has_data e = true ->
+        0 <= data_off (zlen img) e /\ data_off (zlen img) e + zlen (e_data e) <= zlen img /\
+        sub (data_off (zlen img) e) (zlen (e_data e)) img = e_data e)) ->
+  entries_from (map e_hdr es) img = Ok (map as_read es).
+Proof.
+  intros N es. induction es as [|e es IH]; intros H; [reflexivity|].
+  cbn [map entries_from]. destruct (H e (or_introl eq_refl)) as (EO & HD).
+  rewrite new_entry_holds by auto. cbn [bind].
+  rewrite IH; [reflexivity|]. intros e' I. apply H. right; auto.
+Qed.
+
+(* an image that holds [es] at [off] reads back as [es] *)
+Theorem read_back img off es : holds img off es ->
+  forallb entry_ok es = true -> first_ok es = true ->
+  get_entries img = Ok (map as_read es).
+Proof.
+  intros H EO F. unfold get_entries.
+  rewrite (get_table_holds img off es) by (auto; apply entries_wf; auto). cbn [bind].
+  destruct H as [(N1 & N2) _ _ _ D].
+  apply (entries_from_holds img); auto.
+  intros e I. split; [rewrite forallb_forall in EO; auto|]. apply D; auto.
+Qed.
+
+(* ================= inject, then read ================= *)
+
+Lemma in_data_writes n es e : In e es -> has_data e = true ->
+  In (data_off n e, e_data e) (data_writes n es).
+Proof.
+  intros I H. unfold data_writes. apply in_map_iff. exists e. split; auto. apply filter_In; auto.
+Qed.
+
+Lemma inject_holds img off es : layout_ok img off es = true ->
+  forallb wf_hdr (map e_hdr es) = true ->
+  snd (inject img es off) = 0 /\ zlen (fst (inject img es off)) = zlen img /\
+  (forall k, untouched (Z.of_nat k) (ranges (zlen img) off es) = true ->
+     nth_error (fst (inject img es off)) k = nth_error img k) /\
+  holds (fst (inject img es off)) off es.
+Proof.
+  intros LO W. rewrite inject_full by auto. cbn [fst snd].
+  apply layout_ok_spec in LO as ((N1 & N2) & B & D).
+  pose proof (apply_writes_spec (inject_writes img off es) img) as SP.
+  rewrite wrange_inject_writes in SP by auto. destruct (SP B D) as (L & O & S). clear SP.
+  split; [reflexivity|]. split; [exact L|]. split; [exact O|].
+  unfold ranges in B. cbn [forallb] in B.
+  apply andb_true_iff in B as [Bp B]. apply andb_true_iff in B as [Bt Bd].
+  unfold in_image in Bt; cbn [fst snd] in Bt.
+  assert (Lm : zlen (map e_hdr es) = zlen es) by (unfold zlen; rewrite map_length; reflexivity).
+  constructor; rewrite ?L.
+  - lia.
+  - pose proof (S _ (or_introl eq_refl)) as S1. cbn [fst snd] in S1. rewrite le8 in S1. exact S1.
+  - lia.
+  - pose proof (S _ (or_intror (or_introl eq_refl))) as S2. cbn [fst snd] in S2.
+    rewrite zlen_enc_table, Lm in S2 by auto. exact S2.
+  - intros e I HD.
+    pose proof (S _ (or_intror (or_intror (in_data_writes (zlen img) es e I HD)))) as S3.
+    cbn [fst snd] in S3. rewrite forallb_forall in Bd.
+    assert (IR : In (data_off (zlen img) e, zlen (e_data e)) (data_ranges (zlen img) es)).
+    { unfold data_ranges. apply in_map_iff. exists e. split; auto. apply filter_In; auto. }
+    specialize (Bd _ IR). unfold in_image in Bd; cbn [fst snd] in Bd.
+    repeat split; try lia. exact S3.
+Qed.
+
+Theorem inject_confined img off es : layout_ok img off es = true ->
+  forallb wf_hdr (map e_hdr es) = true ->
+  snd (inject img es off) = 0 /\ zlen (fst (inject img es off)) = zlen img /\
+  (forall k, untouched (Z.of_nat k) (ranges (zlen img) off es) = true ->
+     nth_error (fst (inject img es off)) k = nth_error img k).
+Proof. intros LO W. destruct (inject_holds img off es LO W) as (A & B & C & _). auto. Qed.
+
+Theorem inject_pointer img off es : layout_ok img off es = true ->
+  forallb wf_hdr (map e_hdr es) = true ->
+  let img' := fst (inject img es off) in
+  let ptr := rd (zlen img' - fit_pointer_offset) 8 img' in
+  ptr = phys_of_offset off (zlen img') /\ w64 (zlen img' - tail_offset_of_phys ptr) = off.
+Proof.
+  intros LO W. destruct (inject_holds img off es LO W) as (_ & L & _ & [_ P (O1 & O2) _ _]).
+  rewrite L in O2. cbv zeta. unfold rd. change (Z.of_nat 8) with 8. rewrite P.
+  assert (R : 0 <= phys_of_offset off (zlen (fst (inject img es off))) < 2 ^ 64)
+    by (unfold phys_of_offset; apply w64_range).
+  rewrite le_dec_enc by (simpl Z.of_nat; change (256 ^ 8) with (2 ^ 64); exact R).
+  split; [reflexivity|]. apply tail_start_u64.
+  apply layout_ok_spec in LO as ((N1 & N2) & _). pose proof (zlen_nonneg es).
+  assert (HL : hdr_len = 16) by reflexivity. lia.
+Qed.
+
+Theorem inject_table img off es : layout_ok img off es = true ->
+  forallb wf_hdr (map e_hdr es) = true -> first_ok es = true ->
+  table_range (fst (inject img es off)) = Ok (off, off + hdr_len * zlen es) /\
+  get_table (fst (inject img es off)) = Ok (map e_hdr es).
+Proof.
+  intros LO W F. destruct (inject_holds img off es LO W) as (_ & _ & _ & H).
+  split; [apply table_range_holds|apply (get_table_holds _ off)]; auto.
+Qed.
+
+Theorem inject_read img off es : layout_ok img off es = true ->
+  forallb entry_ok es = true -> first_ok es = true ->
+  snd (inject img es off) = 0 /\
+  get_entries (fst (inject img es off)) = Ok (map as_read es).
+Proof.
+  intros LO EO F. destruct (inject_holds img off es LO (entries_wf es EO)) as (A & _ & _ & H).
+  split; [exact A|]. apply (read_back _ off); auto.
+Qed.
+
+(* ================= RecalculateHeaders ================= *)
+
+Lemma calc_checksum_range h : 0 <= calc_checksum h < 256.
+Proof. unfold calc_checksum. apply Z.mod_pos_bound. lia. Qed.
+
+Lemma u24_get_enc v : 0 <= v < 2 ^ 24 -> u24_get (le_enc 3 v) = v.
+Proof.
+  intros H. rewrite u24_get_le by apply (zlen_le_enc 3). apply le_dec_enc. simpl; lia.
+Qed.
+
+Lemma registered_range k : registered k = true -> 0 <= k < 128.
+Proof.
+  unfold registered, fit_all_entry_types. cbn [existsb]. intros H. lia.
+Qed.
+
+Lemma most_common_spec e t : wf_hdr (e_hdr e) = true ->
+  (if e_kind e =? K_UNKNOWN then htype (e_hdr e) else e_kind e) = t -> 0 <= t < 128 ->
+  0 <= zlen (e_data e) / 16 < 2 ^ 24 ->
+  exists tc ck,
+    most_common e = Ok (mkEntry (e_kind e)
+       (mkHdr (h_addr (e_hdr e)) (le_enc 3 (zlen (e_data e) / 16)) (h_rsvd (e_hdr e)) 256 tc ck)
+       (e_data e) (e_err e)) /\
+    tc_type tc = t /\ 0 <= tc < 256 /\ 0 <= ck < 256.
+Proof.
+  intros W T Tr Nr. apply wf_hdr_spec in W as (_ & _ & _ & _ & _ & TC & _).
+  unfold most_common. rewrite T.
+  destruct (tc_set_type_spec (h_tc (e_hdr e)) t TC Tr) as (x & -> & X1 & _ & X2). cbn [bind].
+  rewrite w32_small by lia. rewrite u24_set_enc by lia. cbn [bind].
+  destruct (tc_set_cv_spec x true X2) as (C1 & _ & C3).
+  exists (tc_set_cv x true), (calc_checksum (set_tc (e_hdr e) (tc_set_cv x true))).
+  split; [reflexivity|]. split; [congruence|]. split; [exact C3|].
+  apply calc_checksum_range.
+Qed.
+
+Lemma entry_ok_intro k h d : wf_hdr h = true -> bytes_ok d = true ->
+  k = kind_of_type (htype h) -> data_rule (mkEntry k h d 0) = true ->
+  entry_ok (mkEntry k h d 0) = true.
+Proof.
+  intros W B K D. unfold entry_ok. cbn [e_hdr e_data e_kind e_err].
+  rewrite W, B, D, <- K, Z.eqb_refl. reflexivity.
+Qed.
+
+Lemma no_data_kind_alt k : no_data_kind k =
+  (k =? fit_type_fit_header) || (k =? fit_type_txt_policy) ||
+  ((k =? fit_type_diagnostic_acm) || (k =? fit_type_tpm_policy)).
+Proof. unfold no_data_kind. rewrite <- !orb_assoc. reflexivity. Qed.
+
+(* relation between an entry and its recalculated form *)
+Definition recalc_rel (e e' : entry) : Prop :=
+  entry_ok e' = true /\ as_read e' = e' /\ e_kind e' = e_kind e /\
+  e_data e' = (if e_kind e =? fit_type_txt_policy then [] else e_data e) /\
+  h_addr (e_hdr e') = (if e_kind e =? fit_type_fit_header then magic_addr else h_addr (e_hdr e)).
+
+Lemma shape_ok_spec e : shape_ok e = true ->
+  wf_hdr (e_hdr e) = true /\ bytes_ok (e_data e) = true /\ e_err e = 0 /\
+  ((e_kind e =? K_UNKNOWN) || registered (e_kind e)) = true /\
+  ((e_kind e =? fit_type_diagnostic_acm) || (e_kind e =? fit_type_tpm_policy)) = false /\
+  (if e_kind e =? K_UNKNOWN then negb (registered (htype (e_hdr e))) else true) = true /\
+  (if e_kind e =? fit_type_fit_header then zlen (e_data e) =? 0
+   else if e_kind e =? fit_type_txt_policy then true
+   else if bytes_kind (e_kind e) then zlen (e_data e) <? 2 ^ 24
+   else if e_kind e =? fit_type_sacm then
+     (fit_sacm_size_offset + 4 <=? zlen (e_data e)) &&
+     (zlen (e_data e) =? w32 (rd fit_sacm_size_offset 4 (e_data e) * 4))
+   else (zlen (e_data e) mod 16 =? 0) && (zlen (e_data e) <? 2 ^ 28)) = true.
+Proof.
+  unfold shape_ok. intros H.
+  apply andb_true_iff in H as [H H7]. apply andb_true_iff in H as [H H6].
+  apply andb_true_iff in H as [H H5]. apply andb_true_iff in H as [H H4].
+  apply andb_true_iff in H as [H H3]. apply andb_true_iff in H as [H1 H2].
+  apply Z.eqb_eq in H3. apply negb_true_iff in H5. repeat split; auto.
+Qed.
+
+Lemma recalc_entry_spec e : shape_ok e = true ->
+  exists e', recalc_entry e = Ok e' /\ recalc_rel e e'.
+Proof.
+  intros SH. apply shape_ok_spec in SH as (W & BO & ER & SUP & NU & UNK & SHP).
+  pose proof (wf_hdr_spec _ W) as (A & SO & SL & R & V & TC & C).
+  pose proof (zlen_nonneg (e_data e)) as Ln.
+  (* the type the headers will carry, and the Go type it maps back to *)
+  set (t := if e_kind e =? K_UNKNOWN then htype (e_hdr e) else e_kind e).
+  assert (Tr : 0 <= t < 128).
+  { unfold t. destruct (e_kind e =? K_UNKNOWN) eqn:KU.
+    - apply tc_type_range; auto.
+    - apply registered_range. cbn [orb] in SUP. exact SUP. }
+  assert (KT : kind_of_type t = e_kind e).
+  { unfold t, kind_of_type. destruct (e_kind e =? K_UNKNOWN) eqn:KU.
+    - apply negb_true_iff in UNK. rewrite UNK. apply Z.eqb_eq in KU. auto.
+    - cbn [orb] in SUP. rewrite SUP. reflexivity. }
+  assert (NR : as_read (mkEntry (e_kind e) (e_hdr e) (e_data e) (e_err e)) =
+               mkEntry (e_kind e) (e_hdr e) (e_data e) (e_err e))
+    by (unfold as_read; cbn [e_kind]; rewrite NU; reflexivity).
+  assert (AR : forall h d, as_read (mkEntry (e_kind e) h d 0) = mkEntry (e_kind e) h d 0)
+    by (intros; unfold as_read; cbn [e_kind]; rewrite NU; reflexivity).
+  assert (HL : hdr_len = 16) by reflexivity.
+  assert (D16 : 0 <= zlen (e_data e) / 16) by (apply Z.div_pos; lia).
+  unfold recalc_entry, recalc_rel.
+  destruct (e_kind e =? fit_type_fit_header) eqn:K0.
+  - (* FIT header entry *)
+    apply Z.eqb_eq in SHP. rewrite SHP in *.
+    assert (KU : (e_kind e =? K_UNKNOWN) = false) by (unfold K_UNKNOWN, fit_type_fit_header in *; lia).
+    destruct (most_common_spec e t W eq_refl Tr) as (tc & ck & -> & T1 & T2 & T3);
+      [rewrite SHP; change (0 / 16) with 0; lia|].
+    cbn [bind e_hdr e_data e_err]. eexists. split; [reflexivity|].
+    unfold set_addr; cbn [e_kind e_hdr e_data e_err h_addr h_size h_rsvd h_ver h_tc h_cksum].
+    rewrite ER. rewrite AR.
+    replace (e_kind e =? fit_type_txt_policy) with false
+      by (unfold fit_type_txt_policy, fit_type_fit_header in *; lia).
+    repeat split; auto.
+    apply entry_ok_intro; auto.
+    + apply wf_hdr_enc; auto; try lia. apply magic_addr_range.
+    + unfold htype; cbn [h_tc]. rewrite T1. symmetry. exact KT.
+    + unfold data_rule; cbn [e_kind e_data e_hdr]. rewrite no_data_kind_alt, K0.
+      cbn [orb]. lia.
+  - destruct (e_kind e =? fit_type_sacm) eqn:K2.
+    + (* startup ACM *)
+      assert (KU : (e_kind e =? K_UNKNOWN) = false) by (unfold K_UNKNOWN, fit_type_sacm in *; lia).
+      assert (Tt : t = fit_type_sacm) by (unfold t; rewrite KU; lia).
+      replace (e_kind e =? fit_type_txt_policy) with false in *
+        by (unfold fit_type_txt_policy, fit_type_sacm in *; lia).
+      replace (bytes_kind (e_kind e)) with false in SHP
+        by (unfold bytes_kind, fit_type_bios_policy, fit_type_key_manifest, fit_type_boot_policy,
+                   fit_type_sacm in *; lia).
+      rewrite <- Tt.
+      destruct (tc_set_type_spec (h_tc (e_hdr e)) t TC Tr) as (x & -> & X1 & _ & X2). cbn [bind].
+      rewrite u24_set_enc by lia. cbn [bind]. eexists. split; [reflexivity|].
+      unfold set_size, set_tc; cbn [e_kind e_hdr e_data e_err h_addr h_size h_rsvd h_ver h_tc h_cksum].
+      rewrite ER. rewrite AR. repeat split; auto.
+      apply entry_ok_intro; auto.
+      * apply wf_hdr_enc; auto; lia.
+      * unfold htype; cbn [h_tc]. rewrite X1. symmetry. exact KT.
+      * unfold data_rule; cbn [e_kind e_data e_hdr]. rewrite no_data_kind_alt, K0, K2, NU.
+        replace (e_kind e =? fit_type_txt_policy) with false
+          by (unfold fit_type_txt_policy, fit_type_sacm in *; lia).
+        replace (bytes_kind (e_kind e)) with false
+          by (unfold bytes_kind, fit_type_bios_policy, fit_type_key_manifest, fit_type_boot_policy,
+                     fit_type_sacm in *; lia).
+        cbn [orb]. exact SHP.
+    + rewrite NU.
+      destruct (bytes_kind (e_kind e)) eqn:KB.
+      * (* byte-sized kinds *)
+        assert (KU : (e_kind e =? K_UNKNOWN) = false)
+          by (unfold bytes_kind, K_UNKNOWN, fit_type_bios_policy, fit_type_key_manifest,
+                     fit_type_boot_policy in *; lia).
+        assert (KX : (e_kind e =? fit_type_txt_policy) = false)
+          by (unfold bytes_kind, fit_type_txt_policy, fit_type_bios_policy, fit_type_key_manifest,
+                     fit_type_boot_policy in *; lia).
+        rewrite KX in *. apply Z.ltb_lt in SHP.
+        assert (D16b : zlen (e_data e) / 16 < 2 ^ 24)
+          by (apply Z.div_lt_upper_bound; lia).
+        destruct (most_common_spec e t W eq_refl Tr) as (tc & ck & -> & T1 & T2 & T3); [lia|].
+        cbn [bind e_hdr e_data e_err]. rewrite w32_small by lia. rewrite u24_set_enc by lia.
+        cbn [bind]. eexists. split; [reflexivity|].
+        unfold set_size; cbn [e_kind e_hdr e_data e_err h_addr h_size h_rsvd h_ver h_tc h_cksum].
+        rewrite ER. rewrite AR. repeat split; auto.
+        apply entry_ok_intro; auto.
+        -- apply wf_hdr_enc; auto; lia.
+        -- unfold htype; cbn [h_tc]. rewrite T1. symmetry. exact KT.
+        -- unfold data_rule; cbn [e_kind e_data e_hdr].
+           rewrite no_data_kind_alt, K0, KX, NU, KB. cbn [orb]. unfold hsz; cbn [h_size].
+           rewrite u24_get_enc by lia. lia.
+      * destruct (e_kind e =? fit_type_txt_policy) eqn:KX.
+        -- (* TXT policy record: data dropped *)
+           assert (KU : (e_kind e =? K_UNKNOWN) = false) by (unfold K_UNKNOWN, fit_type_txt_policy in *; lia).
+           assert (Tt : t = fit_type_txt_policy) by (unfold t; rewrite KU; lia).
+           rewrite <- Tt.
+           destruct (tc_set_type_spec (h_tc (e_hdr e)) t TC Tr) as (x & -> & X1 & _ & X2). cbn [bind].
+           rewrite u24_set_enc by lia. cbn [bind]. eexists. split; [reflexivity|].
+           destruct (tc_set_cv_spec x false X2) as (C1 & _ & C3).
+           unfold set_size, set_tc; cbn [e_kind e_hdr e_data e_err h_addr h_size h_rsvd h_ver h_tc h_cksum].
+           rewrite ER. rewrite AR. repeat split; auto.
+           apply entry_ok_intro; auto.
+           ++ apply wf_hdr_enc; auto; lia.
+           ++ unfold htype; cbn [h_tc]. rewrite C1, X1. symmetry. exact KT.
+           ++ unfold data_rule; cbn [e_kind e_data e_hdr].
+              rewrite no_data_kind_alt, K0, KX. cbn [orb]. reflexivity.
+        -- (* every other kind, EntryUnknown included: size in units of 16 bytes *)
+           apply andb_true_iff in SHP as [M16 L28]. apply Z.eqb_eq in M16. apply Z.ltb_lt in L28.
+           assert (D16b : zlen (e_data e) / 16 < 2 ^ 24)
+             by (apply Z.div_lt_upper_bound; lia).
+           destruct (most_common_spec e t W eq_refl Tr) as (tc & ck & -> & T1 & T2 & T3); [lia|].
+           eexists. split; [reflexivity|].
+           cbn [e_kind e_hdr e_data e_err h_addr h_size h_rsvd h_ver h_tc h_cksum].
+           rewrite ER. rewrite AR. repeat split; auto.
+           apply entry_ok_intro; auto.
+           ++ apply wf_hdr_enc; auto; lia.
+           ++ unfold htype; cbn [h_tc]. rewrite T1. symmetry. exact KT.
+           ++ unfold data_rule; cbn [e_kind e_data e_hdr].
+              rewrite no_data_kind_alt, K0, KX, NU, KB, K2. cbn [orb]. unfold hsz; cbn [h_size].
+              rewrite u24_get_enc by lia.
+              pose proof (Z.div_mod (zlen (e_data e)) 16 ltac:(lia)). lia.
+Qed.
+
+Lemma recalc_all_spec es : forallb shape_ok es = true ->
+  exists es', recalc_all es = Ok es' /\ Forall2 recalc_rel es es'.
+Proof.
+  induction es as [|e es IH]; intros SH.
+  - exists []. split; [reflexivity|constructor].
+  - cbn [forallb] in SH. apply andb_true_iff in SH as [Se SH].
+    destruct (recalc_entry_spec e Se) as (e' & E & R). destruct (IH SH) as (es' & Es & Rs).
+    exists (e' :: es'). cbn [recalc_all]. rewrite E, Es. split; [reflexivity|constructor; auto].
+Qed.
+
+Lemma Forall2_zlen {A B} (R : A -> B -> Prop) l l' : Forall2 R l l' -> zlen l' = zlen l.
+Proof.
+  intros F. induction F as [|a b l l' Rab F IH]; [reflexivity|]. rewrite !zlen_cons. lia.
+Qed.
+
+Lemma Forall2_forallb (R : entry -> entry -> Prop) (p : entry -> bool) l l' :
+  Forall2 R l l' -> (forall a b, R a b -> p b = true) -> forallb p l' = true.
+Proof.
+  intros F H. induction F as [|a b l l' Rab F IH]; [reflexivity|].
+  cbn [forallb]. rewrite (H a b Rab), IH. reflexivity.
+Qed.
+
+Lemma as_read_map_id es es' : Forall2 recalc_rel es es' -> map as_read es' = es'.
+Proof.
+  intros F. induction F as [|a b l l' Rab F IH]; [reflexivity|].
+  cbn [map]. rewrite IH. destruct Rab as (_ & -> & _). reflexivity.
+Qed.
+
+(* RecalculateHeaders on a list that starts with a FIT header entry *)
+Theorem recalc_spec es : forallb shape_ok es = true ->
+  (exists e0 r, es = e0 :: r /\ e_kind e0 = fit_type_fit_header) -> zlen es < 2 ^ 24 ->
+  exists es', recalc es = Ok es' /\
+    forallb entry_ok es' = true /\ first_ok es' = true /\ map as_read es' = es' /\
+    Forall2 (fun e e' => e_kind e' = e_kind e /\
+               e_data e' = (if e_kind e =? fit_type_txt_policy then [] else e_data e) /\
+               h_addr (e_hdr e') =
+                 (if e_kind e =? fit_type_fit_header then magic_addr else h_addr (e_hdr e)))
+            es es'.
+Proof.
+  intros SH (e0 & r & -> & K0) N.
+  destruct (recalc_all_spec _ SH) as (es1 & E1 & F).
+  inversion F as [|a e0' l r' R0 Fr]; subst.
+  unfold recalc. rewrite E1. cbn [bind].
+  destruct R0 as (EO0 & AR0 & KK0 & DD0 & AA0).
+  rewrite KK0, K0, Z.eqb_refl.
+  pose proof (zlen_nonneg (e0 :: r)) as Ln.
+  rewrite w32_small by lia. rewrite u24_set_enc by lia. cbn [bind].
+  set (e0'' := mkEntry fit_type_fit_header (set_size (e_hdr e0') (le_enc 3 (zlen (e0 :: r))))
+                       (e_data e0') (e_err e0')).
+  apply entry_ok_spec in EO0 as (W0 & BO0 & KT0 & DR0 & ER0).
+  pose proof (wf_hdr_spec _ W0) as (A & SO & SL & R & V & TC & C).
+  assert (EO0'' : entry_ok e0'' = true).
+  { unfold e0''. rewrite ER0. apply entry_ok_intro; auto.
+    - unfold set_size. apply wf_hdr_enc; auto.
+    - unfold htype, set_size; cbn [h_tc]. fold (htype (e_hdr e0')). congruence.
+    - unfold data_rule in *. cbn [e_kind e_data e_hdr]. rewrite KK0, K0 in DR0.
+      replace (no_data_kind fit_type_fit_header) with true in * by reflexivity. exact DR0. }
+  assert (AR0'' : as_read e0'' = e0'') by reflexivity.
+  exists (e0'' :: r'). split; [reflexivity|]. split; [|split; [|split]].
+  - cbn [forallb]. rewrite EO0''. cbn [andb].
+    apply (Forall2_forallb recalc_rel entry_ok r r'); auto. intros a b (H & _); auto.
+  - unfold first_ok. unfold e0'' at 1 2 3. cbn [e_kind e_hdr].
+    unfold set_size at 1; cbn [h_addr]. rewrite AA0, K0, !Z.eqb_refl. cbn [andb].
+    unfold hsz, set_size; cbn [h_size]. rewrite u24_get_enc by lia.
+    rewrite !zlen_cons. rewrite (Forall2_zlen _ _ _ Fr). apply Z.eqb_refl.
+  - cbn [map]. rewrite AR0''. f_equal. apply (as_read_map_id r); auto.
+  - constructor.
+    + unfold e0''; cbn [e_kind e_data e_hdr]. unfold set_size; cbn [h_addr].
+      repeat split; auto.
+    + clear - Fr. induction Fr as [|a b l l' Rab F IH]; constructor; auto.
+      destruct Rab as (_ & _ & X1 & X2 & X3). auto.
+Qed.
+
+(* RecalculateHeaders, InjectTo, GetEntries *)
+Theorem recalc_inject_read img off es es' :
+  forallb shape_ok es = true ->
+  (exists e0 r, es = e0 :: r /\ e_kind e0 = fit_type_fit_header) -> zlen es < 2 ^ 24 ->
+  recalc es = Ok es' -> layout_ok img off es' = true ->
+  snd (inject img es' off) = 0 /\ get_entries (fst (inject img es' off)) = Ok es'.
+Proof.
+  intros SH F N R LO. destruct (recalc_spec es SH F N) as (es'' & R' & EO & FO & AR & _).
+  rewrite R in R'. injection R' as <-.
+  destruct (inject_read img off es' LO EO FO) as (A & B). rewrite AR in B. auto.
+Qed.
+
+(* entries of the unsupported kinds stop the recalculation, and a list that does
+   not start with a FIT header entry is refused *)
+Lemma recalc_entry_unsupported e :
+  (e_kind e =? fit_type_diagnostic_acm) || (e_kind e =? fit_type_tpm_policy) = true ->
+  recalc_entry e = Err E_UNSUPPORTED.
+Proof.
+  intros H. unfold recalc_entry.
+  replace (e_kind e =? fit_type_fit_header) with false
+    by (unfold fit_type_fit_header, fit_type_diagnostic_acm, fit_type_tpm_policy in *; lia).
+  replace (e_kind e =? fit_type_sacm) with false
+    by (unfold fit_type_sacm, fit_type_diagnostic_acm, fit_type_tpm_policy in *; lia).
+  rewrite H. reflexivity.
+Qed.
+
+Lemma dec_hdr_roundtrip_bytes b h : bytes_ok b = true ->
+  dec_hdr b = Some h -> wf_hdr h = true /\ enc_hdr h = zfirstn hdr_len b.
+Proof. intros OK D. split; [exact (dec_hdr_wf b h OK D)|exact (enc_dec_hdr b h OK D)]. Qed.
